@@ -48,7 +48,7 @@ def main():
     if skip:
         # regression re-run of an already validated seed: reuse the stored validation record
         oldm = json.load(open(os.path.join(VERIF, "seeded", name, "meta.json")))
-        for k in ("demo_clean", "suite_with_change", "demo_with_change", "valid_seed", "note"):
+        for k in ("demo_clean", "suite_with_change", "demo_with_change", "valid_seed", "note", "rebased"):
             if k in oldm:
                 meta[k] = oldm[k]
         meta["ran"].append("validation reused from the first run of this seed")
@@ -97,6 +97,9 @@ def main():
     meta["checks"] = {}
     try:
         rc, out = sh(["git", "-C", REPO, "apply", diff])
+        if rc != 0:
+            meta["error"] = "diff does not apply to /repo HEAD: " + out[-300:]
+            return finish(meta, name, diff, demo, notes, ok=False)
         for c in checks:
             t0 = time.time()
             rc, out = sh([os.path.join(VERIF, "check"), c, "--tier", "quick"], cwd=VERIF, env=dict(os.environ, CARGO_NET_OFFLINE="true"), timeout=7200)
